@@ -95,6 +95,12 @@ func (s *Protocol) Invoke(ctx context.Context, req []byte) (rsp []byte) {
 	// timeout or tars_ping or error
 	rspPackage.IVersion = reqPackage.IVersion
 	rspPackage.IRequestId = reqPackage.IRequestId
+	// the transport decides from the context whether to write a response; make the packet type
+	// known before the (possibly over-long) handler runs, so that a handle timeout does not
+	// answer a one-way request
+	if ok = current.SetPacketTypeFromContext(ctx, reqPackage.CPacketType); !ok {
+		TLOG.Error("SetPacketType in context fail!")
+	}
 
 	select {
 	case <-ctx.Done():
@@ -210,6 +216,8 @@ func (s *Protocol) InvokeTimeout(pkg []byte) []byte {
 	reqPackage := requestf.RequestPacket{}
 	is := codec.NewReader(pkg[4:])
 	reqPackage.ReadFrom(is)
+	rspPackage.IVersion = reqPackage.IVersion
+	rspPackage.CPacketType = reqPackage.CPacketType
 	rspPackage.IRequestId = reqPackage.IRequestId
 	rspPackage.IRet = 1
 	rspPackage.SResultDesc = "server invoke timeout"
